@@ -265,7 +265,10 @@ func (t *Target) Invoke(c Call, lg *Log) (out Outcome) {
 		case MDAG:
 			e, res = p.ExecuteDAGModel(c.DAG, data)
 		case MPoolEM:
-			if req, ok := c.Data["Req"]; ok {
+			if only, ok := c.Data["\x00second-slot-only"]; ok {
+				// nothing in the first slot, the request's object in the second
+				e, res = p.ExecuteRulesWithSpecifiedEM("", nil, "k3", only)
+			} else if req, ok := c.Data["Req"]; ok {
 				e, res = p.ExecuteRulesWithSpecifiedEM("Req", req, "Resp", c.Data["Resp"])
 			} else if stf, ok := c.Data["st"]; ok {
 				// the two slots of this form carry the request's own observers
